@@ -20,7 +20,7 @@ def register(PROPS, h):
         assumptions=F_TB + ["'advertised data' is read as the advertised signed-refs commit: unsigned or moved plain refs on the server are not replicated at all, which is checked through the client-side clause",
                             "the local node's own namespace is never requested via refs_at (the service filters it)"],
         gates=dict(quick={"cases.with-a-changed-namespace": 100, "cases.with-an-invalid-namespace-offered": 60, "changed-namespaces-checked": 150, "offered:SigFlipped": 20, "offered:Rekeyed": 15, "offered:RootOtherRepo": 15, "offered:RootOmitted": 15, "offered:NonCanonicalBlob": 15, "offered:UnsignedExtraRef": 15, "offered:SignedRefMoved": 15, "offered:GarbageBlob": 15},
-                   thorough={"cases.with-a-changed-namespace": 5000, "cases.with-an-invalid-namespace-offered": 2500}),
+                   thorough={"cases.with-a-changed-namespace": 800, "cases.with-an-invalid-namespace-offered": 700}),
         runs=dict(quick=[native("h-fetch", "C01")], thorough=[native("h-fetch", "C01"), native("h-fetch", "C01", profile="release"), valgrind("h-fetch", "C01", cases=48, shards=16)]),
     )
     PROPS["C02"] = dict(
@@ -35,6 +35,6 @@ def register(PROPS, h):
               "or erroring fetch leaves the client's refs byte-identical (clone: no namespace refs at all). Non-trivial = some namespace changed; distinct by case seed."),
         assumptions=F_TB + ["the converse (must succeed when enough delegates are valid) is not demanded"],
         gates=dict(quick={"failed-results-checked": 8, "error-results-checked": 50, "success-results-checked": 100, "success.with-a-delegate-ahead": 40, "cases.with-delegate-behind-or-diverged": 30, "delegate-sigrefs-moved": 20},
-                   thorough={"failed-results-checked": 300, "success-results-checked": 5000}),
+                   thorough={"failed-results-checked": 120, "success-results-checked": 1000}),
         runs=dict(quick=[native("h-fetch", "C02")], thorough=[native("h-fetch", "C02"), native("h-fetch", "C02", profile="release"), valgrind("h-fetch", "C02", cases=48, shards=16)]),
     )
